@@ -466,7 +466,7 @@ let c13_write kind zh tys vals budget =
   | OK bs ->
     let (w, ok) = ew_write_all { w_budget = Some (nh budget); w_accepted = []; w_n = N0 } [bs] in
     (* inflight: the counter equals the accepted bytes in EVERY state of the writer, hence also
-       at the start of each call into the sink (invariant of ew_write, IOProofs) *)
+       at the start of each call into the sink (C13_writer_counter applied to the calls made so far) *)
     Printf.sprintf "err=%s accepted=%s written=%s inflight=1" (show_bool (not ok)) (hb w.w_accepted) (hn w.w_n)
   | Err -> "enc=ERR" | Panic -> "enc=PANIC"
 
